@@ -153,9 +153,17 @@ def params_case(est_name):
       valid = valid_num
     elif strategy == 'f_beta':
       params['beta'] = val
-      valid = ctx.cond(is_number)
+      # beta >= 0 (finite) must be accepted, a non-number must be rejected; NaN / infinite / negative numbers are not fixed by the
+      # property (the quantifier is beta >= 0): either outcome is accepted for them
+      if kind == len(SPECIAL):
+        valid, invalid = ctx.ge(val, 0, tol=0.0), ctx.false()
+      else:
+        fin_nonneg = is_number and not (val != val) and val not in (float('inf'), float('-inf')) and val >= 0
+        valid, invalid = ctx.cond(fin_nonneg), ctx.cond(not is_number)
     else:
       valid = ctx.true()
+    if strategy != 'f_beta':
+      invalid = ctx.not_(valid)
     entered = []
 
     def fake_fit(self, *a, **k):
@@ -177,7 +185,7 @@ def params_case(est_name):
         outcome = 'other:' + type(e).__name__
       finally:
         cls._fit = old
-    ctx.require('invalid_parameters_rejected_before_fit', ctx.implies(ctx.not_(valid), ctx.cond(outcome == 'ValueError' and not entered)))
+    ctx.require('invalid_parameters_rejected_before_fit', ctx.implies(invalid, ctx.cond(outcome == 'ValueError' and not entered)))
     ctx.require('valid_parameters_reach_fit', ctx.implies(valid, ctx.cond(outcome == 'fit_entered')))
     # invalid strategies
     for bad in INVALID_STRATEGIES:
